@@ -297,6 +297,39 @@ Proof.
   split. apply dbi_plus20. apply patodb_dbtopa.
 Qed.
 
+Lemma attenuation_offset_both s L a d :
+  cal_get_sf s L (a + 20) = 10 * cal_get_sf s L a /\ cal_get_sf s L (a + d) = util_dbi d 1 * cal_get_sf s L a.
+Proof. split. apply attenuation_20. apply attenuation_offset. Qed.
+
+Lemma level_offset_both s L a v : 0 < v ->
+  cal_get_sf s (L + 20) a = 10 * cal_get_sf s L a /\ cal_get_db s (10 * v) = cal_get_db s v + 20.
+Proof. intros Hv. split. apply level_20. now apply db_volts_20. Qed.
+
+Lemma mean_sf_laws ss s L a :
+  mean_sf ss L (a + 20) = 10 * mean_sf ss L a /\ flat_get_mean_sf s L (a + 20) = 10 * flat_get_mean_sf s L a /\
+  (ss <> [] -> (forall x, In x ss -> x = s) -> mean_sf ss L a = flat_get_mean_sf s L a).
+Proof. split. apply mean_sf_20. split. apply flat_mean_sf_20. apply flat_mean_sf. Qed.
+
+Lemma from_spl_from_db_consistent level v : 0 < v ->
+  (cal_get_db (flat_from_spl level v) v = level /\ cal_get_sf (flat_from_spl level v) level 0 = v /\
+   cal_get_db (freq_from_spl level v) v = level /\ cal_get_sf (freq_from_spl level v) level 0 = v) /\
+  (cal_get_db (flat_from_db level v) v = level /\ cal_get_sf (flat_from_db level v) level 0 = v /\
+   cal_get_db (freq_from_db level v) v = level /\ cal_get_sf (freq_from_db level v) level 0 = v).
+Proof. intros Hv. split. now apply from_spl_consistent. now apply from_db_consistent. Qed.
+
+Lemma from_pascals_consistent_agree m spl v : 0 < m -> 0 < v ->
+  (cal_get_db (flat_from_pascals m v) v = util_patodb m /\ cal_get_db (freq_from_pascals m v) v = util_patodb m) /\
+  (flat_from_pascals m v = flat_from_spl (util_patodb m) v /\
+   freq_from_pascals m v = freq_from_spl (util_patodb m) v /\
+   flat_from_spl spl v = flat_from_db spl v /\ freq_from_spl spl v = freq_from_db spl v /\
+   flat_from_db spl v = freq_from_db spl v).
+Proof. intros Hm Hv. split. now apply from_pascals_consistent. now apply constructors_agree. Qed.
+
+Lemma mv_pa_laws m p s : 0 < m -> 0 < p ->
+  flat_to_mv_pa (flat_from_mv_pa m) = m /\ flat_from_mv_pa (flat_to_mv_pa s) = s /\
+  cal_get_db (flat_from_mv_pa m) (m * (1 / 1000) * p) = util_patodb p.
+Proof. intros Hm Hp. split. now apply mv_pa_roundtrip. split. apply mv_pa_roundtrip'. now apply from_mv_pa_consistent. Qed.
+
 (* ---------------------------------------------------------------- the code before the two repairs (fix-C07) *)
 Definition flat_from_pascals_unrepaired (magnitude vrms : R) : R :=
   util_db vrms 1 - util_db magnitude 1 - util_db (1 / 50000) 1.
@@ -314,3 +347,8 @@ Lemma mean_sf_unrepaired_refuted : exists s L a,
 Proof.
   exists 0, 0, 0. unfold flat_get_mean_sf_unrepaired. pose proof (get_sf_pos 0 0 0). lra.
 Qed.
+
+Lemma unrepaired_refuted :
+  (exists m v, 0 < m /\ 0 < v /\ cal_get_db (flat_from_pascals_unrepaired m v) v <> util_patodb m) /\
+  (exists s L a, flat_get_mean_sf_unrepaired s L (a + 20) <> 10 * flat_get_mean_sf_unrepaired s L a).
+Proof. split. apply from_pascals_unrepaired_refuted. apply mean_sf_unrepaired_refuted. Qed.
